@@ -17,7 +17,10 @@
 package main
 
 import (
+	"bytes"
 	"fmt"
+	"github.com/vmware/go-ipfix/pkg/exporter"
+	"io"
 	"math/rand/v2"
 	"net"
 	"time"
@@ -57,6 +60,10 @@ func main() {
 			panic("custom element table changed")
 		}
 	}
+	// a second exporting process of the same program sends to its own collector all the while: what THIS process
+	// transmits must not depend on it
+	stopSecond := startSecondExporter(c)
+	defer stopSecond()
 	total := c.Pick(4000, 200000)
 	per := total / c.NBatch
 	from, to := c.Range(per)
@@ -399,4 +406,67 @@ func runHistory(c *hx.Ctx, k int, r *rand.Rand, proto string) (classes []string,
 		refusedThenAccepted = true
 	}
 	return
+}
+
+// startSecondExporter runs another exporting process (own TCP peer that discards what it reads, own observation
+// domain, the same template ids as every process starts with) sending large valid messages until stopped.
+func startSecondExporter(c *hx.Ctx) func() {
+	ln, err := net.Listen("tcp", "127.0.0.1:0")
+	if err != nil {
+		return func() {}
+	}
+	go func() {
+		for {
+			conn, err := ln.Accept()
+			if err != nil {
+				return
+			}
+			go io.Copy(io.Discard, conn)
+		}
+	}()
+	ep, err := exporter.InitExportingProcess(exporter.ExporterInput{CollectorAddress: ln.Addr().String(), CollectorProtocol: "tcp", ObservationDomainID: 0xEEEEEEEE})
+	if err != nil {
+		ln.Close()
+		return func() {}
+	}
+	t := tmpl{tid: ep.NewTemplateID(), elems: []regtable.Elem{elU32, elStr}}
+	ts, err := lib.TemplateSet(t.tid, t.elems, 0)
+	if err != nil {
+		panic(err)
+	}
+	if _, err := ep.SendSet(ts); err != nil {
+		ep.CloseConnToCollector()
+		ln.Close()
+		return func() {}
+	}
+	stop, done := make(chan struct{}), make(chan struct{})
+	go func() {
+		defer close(done)
+		pad := bytes.Repeat([]byte{0xEE}, 30000)
+		n := int64(0)
+		for i := uint64(1); ; i++ {
+			select {
+			case <-stop:
+				c.Add("messages_of_the_second_exporting_process", n)
+				return
+			default:
+			}
+			set := entities.NewSet(false)
+			if err := lib.FillDataSet(set, t.tid, t.elems, [][][]byte{{refipfix.PU(4, i), pad[:20000+int(i%10000)]}}, nil); err != nil {
+				panic(err)
+			}
+			if _, err := ep.SendSet(set); err != nil {
+				c.Add("messages_of_the_second_exporting_process", n)
+				return
+			}
+			n++
+			time.Sleep(20 * time.Microsecond)
+		}
+	}()
+	return func() {
+		close(stop)
+		<-done
+		ep.CloseConnToCollector()
+		ln.Close()
+	}
 }
